@@ -89,6 +89,16 @@ type spec struct {
 	unsub      bool // a thread unsubscribes and re-subscribes c1 from t during the traffic
 	quick, tho int
 	scoped     bool // request-scoped contexts (see env.scoped)
+	// nowait: the broker's polls wait without a time-out (Broker.Timeout = 0): a poll only returns with
+	// messages, so a message accepted while the client polls must wake that poll - the consumer polls until
+	// it has everything that was accepted, and a poll that waits for ever beside a filled cache is a hang.
+	nowait bool
+	// deny: c1 is also subscribed to "u", and a thread denies it that topic (Broker.Deny) during the traffic
+	deny bool
+	// heartbeat: the broker's heartbeat is short (10 s) and its poll time-out long (100 s); the publisher
+	// pauses 50 s between its messages. The consumer polls again at once after every delivery, so it is
+	// never away for a heartbeat and must not be taken offline.
+	heartbeat bool
 }
 
 func brokerScenario(sp spec) h.Scenario {
@@ -100,9 +110,19 @@ func brokerScenario(sp spec) h.Scenario {
 		timeouts := 0
 		var publishedAfterTimeout bool
 		var pollTimedOut vs.Var[bool]
+		var wentOffline bool // a poll of the continuously polling consumer was answered nil: it is subscribed to nothing any more
 		s := vs.Run(ch, vs.Config{Trace: trace, EagerHorizon: time.Second}, func() {
 			e := newEnv()
 			e.scoped = sp.scoped
+			if sp.nowait {
+				e.broker.Timeout = 0
+			}
+			if sp.heartbeat {
+				e.broker.Timeout, e.broker.HeartBeat = 100*time.Second, 10*time.Second
+				if strings.Contains(sp.name, "polls-time-out") {
+					e.broker.Timeout = 30 * time.Second // the pause of the publisher spans a poll time-out
+				}
+			}
 			e.broker.OnUnsubscribe = func(ctx context.Context, id, topic string, ms []push.Message) {
 				for _, m := range ms {
 					dropped = append(dropped, fmt.Sprint(m.Data))
@@ -110,6 +130,13 @@ func brokerScenario(sp spec) h.Scenario {
 			}
 			e.subscribe("c1", "t")
 			e.subscribe("c2", "other") // a bystander subscribed to another topic
+			if sp.deny {
+				e.subscribe("c1", "u")
+			}
+			total := 0
+			for _, p := range sp.pubs {
+				total += len(p.msgs)
+			}
 			accepted = make([][]string, len(sp.pubs))
 			var pubDone vs.WaitGroup
 			for pi, p := range sp.pubs {
@@ -117,7 +144,10 @@ func brokerScenario(sp spec) h.Scenario {
 				pubDone.Add(1)
 				vs.GoFG(fmt.Sprintf("pub%d", pi), func() {
 					defer pubDone.Done()
-					for _, m := range p.msgs {
+					for mi, m := range p.msgs {
+						if sp.heartbeat && mi > 0 {
+							vs.Sleep(50 * time.Second)
+						}
 						ok := false
 						ctx := e.ctxFor(fmt.Sprintf("p%d", pi))
 						switch p.kind {
@@ -145,9 +175,18 @@ func brokerScenario(sp spec) h.Scenario {
 					e.subscribe("c1", "t")
 				})
 			}
+			if sp.deny {
+				pubDone.Add(1)
+				vs.GoFG("deny", func() {
+					defer pubDone.Done()
+					e.broker.Deny(e.ctxFor("p"), "c1", "u")
+				})
+			}
 			take := func(b map[string][]string) {
 				for t, ms := range b {
-					if t == "t" {
+					if sp.deny && ms == nil {
+						// the denial of "u" (topic -> nil): not a message
+					} else if t == "t" {
 						delivered = append(delivered, ms...)
 					} else {
 						foreign = append(foreign, ms...)
@@ -155,6 +194,28 @@ func brokerScenario(sp spec) h.Scenario {
 				}
 			}
 			vs.GoFG("consumer", func() {
+				if sp.nowait {
+					for len(delivered) < total {
+						b, isNil := e.poll("c1")
+						if isNil {
+							wentOffline = true
+							return
+						}
+						take(b)
+					}
+					return
+				}
+				if sp.heartbeat {
+					for len(delivered) < total {
+						b, isNil := e.poll("c1")
+						if isNil {
+							wentOffline = true
+							return
+						}
+						take(b)
+					}
+					return
+				}
 				for i := 0; i < sp.polls; i++ {
 					b, isNil := e.poll("c1")
 					if !isNil && len(b) == 0 {
@@ -184,6 +245,10 @@ func brokerScenario(sp spec) h.Scenario {
 		}
 		o.Key = fmt.Sprintf("accepted=%d delivered=%d timeouts=%d dropped=%d", len(acc), len(delivered), timeouts, len(dropped))
 		if len(s.Hangs) > 0 || s.Pruned || s.Aborted != "" {
+			return s, o
+		}
+		if (sp.nowait || sp.heartbeat) && (wentOffline || len(acc) != len(flat(sp.pubs))) {
+			o.Viol = append(o.Viol, h.V{Sig: "broker|polling-client-taken-offline", What: fmt.Sprintf("%s: the client polls again at once after every delivery, yet a poll was answered nil (%v) or a publish was refused (accepted %v of %v); handed to OnUnsubscribe: %v", sp.name, wentOffline, acc, flat(sp.pubs), dropped)})
 			return s, o
 		}
 		a, d := append([]string{}, acc...), append(append([]string{}, delivered...), dropped...)
@@ -240,6 +305,13 @@ func brokerScenario(sp spec) h.Scenario {
 	}}
 }
 
+func flat(pubs []pubSpec) (all []string) {
+	for _, p := range pubs {
+		all = append(all, p.msgs...)
+	}
+	return
+}
+
 // ---- Prosumer: consecutive batches must reach the callback in order ----
 
 func prosumerScenario() h.Scenario {
@@ -282,21 +354,97 @@ func prosumerScenario() h.Scenario {
 	}}
 }
 
+// The application subscribes to a second topic while batches of the first are on their way: the callbacks of
+// topic t still see its messages in order (one poll loop per Prosumer, whatever the number of Subscribe calls).
+func prosumerSecondSubscribe() h.Scenario {
+	name := "prosumer/second-subscribe-during-traffic"
+	return h.Scenario{Name: name, Quick: 2, Thorough: 3, Run: func(ch vs.Chooser, trace bool) (*vs.Sched, h.Outcome) {
+		var got []string
+		s := vs.Run(ch, vs.Config{Trace: trace}, func() {
+			client := core.NewClient("mock://unused")
+			p := push.NewProsumer(client, "c1")
+			batches := []map[string][]push.Message{
+				{"t": {{Data: "m1", From: "p"}, {Data: "m2", From: "p"}}},
+				{"t": {{Data: "m3", From: "p"}}},
+			}
+			var next vs.Var[int]
+			p.VerifSetMessageProxy(func() (map[string][]push.Message, error) {
+				vs.Point("poll")
+				i := next.Get()
+				next.Set(i + 1)
+				if i < len(batches) {
+					return batches[i], nil
+				}
+				return nil, nil // the scripted broker knows no subscription any more: the loop ends
+			})
+			p.VerifSetSubscribeProxy(func(topic string) (bool, error) {
+				vs.Point("subscribe")
+				return true, nil
+			})
+			var done vs.WaitGroup
+			done.Add(2)
+			vs.GoFG("app1", func() {
+				defer done.Done()
+				p.Subscribe("t", func(m push.Message) {
+					vs.Point("callback")
+					got = append(got, fmt.Sprint(m.Data))
+				})
+			})
+			vs.GoFG("app2", func() {
+				defer done.Done()
+				p.Subscribe("u", func(m push.Message) {})
+			})
+			done.Wait()
+		})
+		o := h.Outcome{Key: strings.Join(got, ",")}
+		if len(s.Hangs) == 0 && !s.Pruned && s.Aborted == "" {
+			// a loop started by the Subscribe of "u" may take a batch before "t" has its callback: such a batch
+			// is dropped by dispatch (no callback yet), which is the application's order of subscribing, not a
+			// reordering. What reaches the callback must be in order.
+			if !inOrder(got, []string{"m1", "m2", "m3"}) {
+				o.Viol = append(o.Viol, h.V{Sig: "prosumer|callbacks-out-of-order", What: fmt.Sprintf("Subscribe(t) and Subscribe(u) during traffic: batches [m1 m2] then [m3] reached the callback of t as %v", got)})
+			}
+		}
+		return s, o
+	}}
+}
+
+// inOrder: got is a subsequence of want, whole batches aside.
+func inOrder(got, want []string) bool {
+	j := 0
+	for _, g := range got {
+		for j < len(want) && want[j] != g {
+			j++
+		}
+		if j == len(want) {
+			return false
+		}
+		j++
+	}
+	return true
+}
+
 func main() {
 	specs := []spec{
-		{"unicast/1pub-2msg/2polls", []pubSpec{{"unicast", []string{"a1", "a2"}}}, 2, false, 2, 3, false},
-		{"unicast/2pub-1msg/2polls", []pubSpec{{"unicast", []string{"a1"}}, {"unicast", []string{"b1"}}}, 2, false, 2, 3, false},
-		{"broadcast/1pub-2msg/2polls", []pubSpec{{"broadcast", []string{"a1", "a2"}}}, 2, false, 2, 3, false},
-		{"multicast/1pub-2msg/1poll", []pubSpec{{"multicast", []string{"a1", "a2"}}}, 1, false, 2, 3, false},
-		{"unicast/1pub-2msg/1poll/resubscribe", []pubSpec{{"unicast", []string{"a1", "a2"}}}, 1, true, 2, 3, false},
-		{"unicast/1pub-1msg/3polls", []pubSpec{{"unicast", []string{"a1"}}}, 3, false, 2, 3, false},
-		{"unicast/1pub-2msg/2polls/request-scoped-contexts", []pubSpec{{"unicast", []string{"a1", "a2"}}}, 2, false, 2, 3, true},
-		{"unicast/2pub-1msg/2polls/request-scoped-contexts", []pubSpec{{"unicast", []string{"a1"}}, {"unicast", []string{"b1"}}}, 2, false, 2, 3, true},
+		{"unicast/1pub-2msg/2polls", []pubSpec{{"unicast", []string{"a1", "a2"}}}, 2, false, 2, 3, false, false, false, false},
+		{"unicast/2pub-1msg/2polls", []pubSpec{{"unicast", []string{"a1"}}, {"unicast", []string{"b1"}}}, 2, false, 2, 3, false, false, false, false},
+		{"broadcast/1pub-2msg/2polls", []pubSpec{{"broadcast", []string{"a1", "a2"}}}, 2, false, 2, 3, false, false, false, false},
+		{"multicast/1pub-2msg/1poll", []pubSpec{{"multicast", []string{"a1", "a2"}}}, 1, false, 2, 3, false, false, false, false},
+		{"unicast/1pub-2msg/1poll/resubscribe", []pubSpec{{"unicast", []string{"a1", "a2"}}}, 1, true, 2, 3, false, false, false, false},
+		{"unicast/1pub-1msg/3polls", []pubSpec{{"unicast", []string{"a1"}}}, 3, false, 2, 3, false, false, false, false},
+		{"unicast/1pub-2msg/2polls/request-scoped-contexts", []pubSpec{{"unicast", []string{"a1", "a2"}}}, 2, false, 2, 3, true, false, false, false},
+		{"unicast/2pub-1msg/2polls/request-scoped-contexts", []pubSpec{{"unicast", []string{"a1"}}, {"unicast", []string{"b1"}}}, 2, false, 2, 3, true, false, false, false},
+		{name: "unicast/1pub-1msg/polls-without-timeout", pubs: []pubSpec{{"unicast", []string{"a1"}}}, quick: 2, tho: 3, nowait: true},
+		{name: "unicast/2pub-1msg/polls-without-timeout", pubs: []pubSpec{{"unicast", []string{"a1"}}, {"unicast", []string{"b1"}}}, quick: 2, tho: 3, nowait: true},
+		{name: "broadcast/1pub-2msg/polls-without-timeout", pubs: []pubSpec{{"broadcast", []string{"a1", "a2"}}}, quick: 2, tho: 3, nowait: true},
+		{name: "unicast/1pub-1msg/2polls/deny-another-topic", pubs: []pubSpec{{"unicast", []string{"a1"}}}, polls: 2, quick: 2, tho: 3, deny: true},
+		{name: "unicast/1pub-2msg/short-heartbeat/polls-time-out", pubs: []pubSpec{{"unicast", []string{"a1", "a2"}}}, quick: 2, tho: 3, heartbeat: true},
+		{name: "unicast/1pub-2msg/short-heartbeat", pubs: []pubSpec{{"unicast", []string{"a1", "a2"}}}, quick: 2, tho: 3, heartbeat: true},
 	}
 	var scen []h.Scenario
 	for _, sp := range specs {
 		scen = append(scen, brokerScenario(sp))
 	}
-	scen = append(scen, prosumerScenario())
+	scen = append(scen, prosumerScenario(), prosumerSecondSubscribe())
 	h.Main(ID, scen, nil)
 }
